@@ -893,10 +893,17 @@ impl<'a> Visitor<'a> {
                 return Ok(style_sheet.clone());
             }
 
-            let file = self.map.add_file(
-                name.to_string_lossy().into(),
-                String::from_utf8(self.options.fs.read(&name)?)?,
-            );
+            // report unreadable or non-UTF-8 files as errors at the import site
+            let contents = self
+                .options
+                .fs
+                .read(&name)
+                .map_err(|e| (e.to_string(), span))
+                .and_then(|bytes| {
+                    String::from_utf8(bytes).map_err(|_| ("Invalid UTF-8.".to_owned(), span))
+                })?;
+
+            let file = self.map.add_file(name.to_string_lossy().into(), contents);
 
             let old_is_use_allowed = self.flags.is_use_allowed();
             self.flags.set(ContextFlags::IS_USE_ALLOWED, true);
